@@ -88,6 +88,15 @@ def oversize(r):
     for rx in ("/ab\\jcd(/", "/ab\\jcd[z-a]/", "/[\\j]x{1,70000}/", "/\\j)/"):
         o.append(("strict-escape-then-error", "rule a { strings: $a = %s condition: $a }" % rx))
         o.append(("strict-escape-then-error-matches", 'rule a { condition: "abc" matches %s }' % rx))
+    # value-range boundaries inside the sub-parsers: class ranges touching 0x00 / 0xff, repeat counts, hex jumps, escapes
+    for cl in ("[\\x00-\\xff]", "[a-\\xff]", "[\\xfe-\\xff]", "[^\\x00-\\xff]", "[\\xff-\\xff]", "[\\x00-\\x00]", "[\\xff]", "[^\\xff]", "[\\x7f-\\x80]", "[]-a]", "[^]-a]", "[a-]", "[\\w-\\xff]", "[z-\\xff]+"):
+        o.append(("re-class-boundary", "rule a { strings: $a = /x%sy/ condition: $a }" % cl))
+        o.append(("re-class-boundary-matches", 'rule a { condition: "abc" matches /%s/ }' % cl))
+    for q in ("{0}", "{0,0}", "{,0}", "{32767}", "{32768}", "{0,32767}", "{32767,32767}", "{1,}", "{,1}", "{2,1}", "{65535}", "{65536}", "{4294967296}"):
+        o.append(("re-repeat-boundary", "rule a { strings: $a = /ab%sc/ condition: $a }" % q))
+        o.append(("re-repeat-boundary-group", "rule a { strings: $a = /a(b|cd)%se/ condition: $a }" % q))
+    for j in ("[0]", "[0-0]", "[1-0]", "[0-]", "[-]", "[4294967295]", "[4294967296]", "[2-1]", "[199-200]", "[200-201]", "[0-4294967295]"):
+        o.append(("hex-jump-boundary", "rule a { strings: $a = { 41 %s 42 } condition: $a }" % j))
     o.append(("int-overflow", "rule a { condition: 9223372036854775807 + 1 > 0 }"))
     o.append(("int-min-div", "rule a { condition: (-9223372036854775807 - 1) \\ -1 == 0 }"))
     o.append(("int-min-mod", "rule a { condition: (-9223372036854775807 - 1) % -1 == 0 }"))
